@@ -32,7 +32,7 @@ ASSUMPTIONS = [
     "the direct pl()/terminal_value() operations are plain value generation (no schedule/fault dimension); they are labelled "
     "'direct_pl' in operations_by_kind",
 ]
-PROBES = ["cost_pos_and_trade", "H2", "H3", "listed_hedge", "first_cost_disabled", "cost_none", "payoff_none",
+PROBES = ["earlier_evaluation_aborted", "cost_pos_and_trade", "H2", "H3", "listed_hedge", "first_cost_disabled", "cost_none", "payoff_none",
           "negative_price", "shock_before_pl", "multi_primary", "float64", "exact_repeat_position", "sign_flip", "compute_pnl", "pl_under_grad", "payoff_with_clauses", "cost_changed_between_calls", "price_scale_not_one"]
 
 
@@ -91,7 +91,11 @@ def generate(rng):
 
     sim_all()
     for _ in range(rng.randint(2, 7)):
-        k = rng.wchoice([("hedger_pl", 6), ("shock", 3), ("resim", 1), ("direct_pl", 3), ("change_cost", 2)])
+        k = rng.wchoice([("hedger_pl", 6), ("shock", 3), ("resim", 1), ("direct_pl", 3), ("change_cost", 2), ("aborted_pl", 1)])
+        if k == "aborted_pl":
+            # F8: an evaluation on the same hedger / instruments was aborted (the model raised at its k-th forward)
+            ops.append({"op": "aborted_pl", "which": rng.choice(["pl", "portfolio"]), "hedge": hedge, "after": rng.randint(0, 3)})
+            continue
         if k == "change_cost":
             # the user changes a cost rate between two evaluations (cost-sensitivity sweep): stock.cost = x / re-list
             tgt = rng.choice([i for i in (hedge or ["p0"])])
@@ -280,6 +284,35 @@ def _execute(program, stats, hist):
                 inst.list(make_pricer(op.get("pricer") or spec_l["listed"]["pricer"]), cost=op["cost"])
             stats.probe("cost_changed_between_calls")
             hist.add(op="change_cost", target=op["target"], cost=op["cost"])
+        elif name == "aborted_pl":
+            h = world.hedgers["h0"]
+            d = world.derivatives["d0"]
+            dtype0 = next(iter(d.underliers())).dtype or torch.get_default_dtype()
+            h.to(dtype0)
+            cast_module_outputs(h.inputs, dtype0)
+
+            class _Fault(RuntimeError):  # what torch itself raises on a shape or dtype error
+                pass
+            calls = [0]
+
+            def boom(mod, args, _after=op["after"]):
+                calls[0] += 1
+                if calls[0] > _after:
+                    raise _Fault("injected")
+            handle = h.model.register_forward_pre_hook(boom)
+            raised = False
+            try:
+                with torch.no_grad():
+                    (h.compute_pl if op["which"] == "pl" else h.compute_portfolio)(d, hedge=world.hedge_list(op.get("hedge")))
+            except Exception:
+                raised = True
+            finally:
+                handle.remove()
+                torch.set_grad_enabled(True)
+            stats.fault("F8_callback_exception")
+            if raised:
+                stats.probe("earlier_evaluation_aborted")
+            hist.add(op=name, raised=raised)
         elif name == "hedger_pl":
             h = world.hedgers[op["hedger"]]
             d = world.derivatives[op["derivative"]]
